@@ -160,6 +160,35 @@ def two_instances(a0: int, a1: int, pos: int, b_nmne: bool, b_low: int, kind: st
     check(not d, lambda: f"environment A behaves differently when environment B (nmne={b_nmne}, nmne low threshold={low}) is interleaved at position {p}: {d}")
 
 
+def second_instance_fresh(a_nmne: bool, b_nmne: bool, a_steps: int, a0: int, kind: str = "switched"):
+    """An environment B constructed after another, differently configured environment A (built, stepped, possibly
+    closed) behaves exactly like B constructed on its own."""
+    with concrete():
+        quiet()
+        probe = _mk(kind, False)  # (capture off: the probe must not leave class-level state behind for B-alone)
+        n_actions = len(probe.agent.action_manager.action_map)
+    assume(all_of(rng(a_steps, 0, 2), rng(a0, 0, n_actions - 1)))
+    acts = [pick_int(a0, 0, n_actions - 1), 19, 0]
+    na = pick_int(a_steps, 0, 2)
+    with concrete():
+        try:
+            b_alone = _mk(kind, b_nmne, seed=9)
+            b_alone.reset(seed=5)
+            t_alone = _trace(b_alone, acts)
+            a = _mk(kind, a_nmne, seed=3)
+            a.reset(seed=11)
+            for _ in range(na):
+                a.step(1)
+            b = _mk(kind, b_nmne, seed=9)
+            b.reset(seed=5)
+            t_b = _trace(b, acts)
+        except Exception as e:
+            fail(f"raised {type(e).__name__}: {str(e)[:300]}")
+        d = _diff(t_alone, t_b)
+    cover("compared")
+    check(not d, lambda: f"environment B (nmne={b_nmne}) constructed after environment A (nmne={a_nmne}, {na} steps) differs from B on its own: {d}")
+
+
 def shared_state_walk(kind_i: int):
     """Two games built from the same scenario share no mutable container and no component (identity walk)."""
     import enum
@@ -311,6 +340,13 @@ HARNESSES = {
         "thorough": [{"fixed": {"a0": a, "kind": kd}, "timeout": 1500} for a in (0, 19, 41) for kd in ("switched", "routed")],
         "cover": ["compared"],
         "bounds": "B differs in NMNE capture and NMNE threshold; 3 interleaving positions; A's actions fixed (quick) / a1 over the whole map (thorough)",
+    },
+    "second_instance_fresh": {
+        "fn": second_instance_fresh,
+        "quick": [{"fixed": {"a0": 0, "kind": "switched"}, "timeout": 200}],
+        "thorough": [{"fixed": {"kind": kd}, "timeout": 1500} for kd in ("switched", "routed")],
+        "cover": ["compared"],
+        "bounds": "A and B with NMNE capture on/off independently, A stepped 0-2 times before B is built; B's first action fixed (quick) / any (thorough)",
     },
     "scheduled_isolation": {
         "fn": scheduled_isolation,
